@@ -15,8 +15,8 @@ CHECKS = {
    ref="DESIGN.md section 3, C02"),
  "C03": dict(
    technique="property-based testing (proptest, generation + type-breaking mutation) + bounded-exhaustive enumeration against an independent type checker (NbE conversion)",
-   text="Whenever gram accepts a generated, perturbed, erased or enumerated program, an independent checker for explicit terms must find the elaborated term well scoped, well typed, and of a type convertible with the reported one; explicit programs the independent checker rejects must be rejected. 70% of generated programs carry 1-2 type-breaking mutations; all closed explicit programs up to size 5/6 are enumerated, so each side condition is exercised in isolation (the evidence lists per-rule rejection counts).",
-   note="Trusts R-core's typing rules and NbE conversion; elaborated terms with unresolved holes are outside its domain. One recorded finding (hole identity lost) is matched by hook counter + failure shape.",
+   text="Whenever gram accepts a generated, perturbed, erased or enumerated program, an independent checker for explicit terms must find the elaborated term well scoped, well typed, and of a type convertible with the reported one; explicit programs the independent checker rejects must be rejected. 70% of generated programs carry 1-2 type-breaking mutations; all closed explicit programs up to size 5/6 are enumerated, so each side condition is exercised in isolation (the evidence lists per-rule rejection counts). A generated `scope escape` family (the type of an un-annotated parameter would have to mention a variable bound after it: directly, under binders, through the unsolved type of another un-annotated parameter) and programs in which a local function captures a parameter before its type is fixed exercise the scoping of hole solutions.",
+   note="Trusts R-core's typing rules and NbE conversion; elaborated terms with unresolved holes are outside its domain. Two recorded findings are matched by signature: hole identity lost (hook counter + failure shape); a hole written under a binder of a type (`-> _` in the source, or a panic at the normaliser's context lookup on a source with an explicit hole).",
    ref="DESIGN.md section 3, C03"),
  "C04": dict(
    technique="property-based testing (proptest, type-directed generation); oracle = value shape + independent type inference on the value",
@@ -60,32 +60,32 @@ CHECKS = {
    ref="DESIGN.md section 3, C11"),
  "C12": dict(
    technique="property-based testing (proptest): hole punching into well-typed terms, solution invariants checked against NbE conversion",
-   text="Patterns are cut from generated well-typed closed terms by replacing 1-4 subterms at arbitrary depths by holes with shifts that make them solvable, scope-escaping or non-linear, and unified (both orders) with the original, a reduct, an unrelated term or another pattern, with and without a definitions context; occurs-check shapes and two-call histories (a hole solved by a term containing a hole that a later call solves) are generated too. Whenever unify returns true: solved cells are acyclic, every solution's free indices fit the scope of every occurrence of its hole, both sides with the solutions read in are convertible by an independent NbE, and the context keeps its length. Sampled.",
+   text="Patterns are cut from generated well-typed closed terms by replacing 1-4 subterms at arbitrary depths by holes with shifts that make them solvable, scope-escaping or non-linear, and unified (both orders) with the original, a reduct, an unrelated term or another pattern, with and without a definitions context; near misses of the term (one point changed, a group one definition longer or shorter with the body at the same index; with or without holes) so that a wrong `yes` is visible; occurs-check shapes and two-call histories (a hole solved by a term containing a hole that a later call solves) are generated too. Whenever unify returns true: solved cells are acyclic, every solution's free indices fit the scope of every occurrence of its hole, both sides with the solutions read in are convertible by an independent NbE, and the context keeps its length. Sampled.",
    note="Nothing is demanded when unify returns false. Two recorded findings are matched by signature (hole copied by open during the call - hook counter; scope escape through a later-solved inner hole - only in the two-call part).",
    ref="DESIGN.md section 3, C12"),
  "C13": dict(
    technique="property-based testing (proptest) with repeated process launches; oracle = byte equality across runs",
-   text="Generated files built to produce several diagnostics at once (a definition that mentions 2-6 later non-value definitions, several unbound / re-bound names, several type errors, several stray symbols, mixtures), accepted programs, syntax near-misses, invalid UTF-8 and the empty file are run 6 (quick) / 12 (thorough) times per sub-command in separate processes; (status, stdout, stderr) must be byte-identical. In-process companion: 10 parse() calls on the same tokens must return identical diagnostics. Cannot prove determinism; the escape probability per file with k permutable diagnostics is (1/k!)^(launches-1).",
+   text="Generated files built to produce several diagnostics at once (a definition that mentions 2-6 later non-value definitions, several unbound / re-bound names, several type errors, several stray symbols, mixtures), accepted programs, faults next to several bound names one edit apart (diagnostics that may consult the whole scope), syntax near-misses, invalid UTF-8 and the empty file are run 6 (quick) / 12 (thorough) times per sub-command in separate processes; (status, stdout, stderr) must be byte-identical. In-process companion: 10 parse() calls on the same tokens must return identical diagnostics. Cannot prove determinism; the escape probability per file with k permutable diagnostics is (1/k!)^(launches-1).",
    note="Trusts process isolation (fresh hash seeds per launch). Fixed path, cwd and NO_COLOR.",
    ref="DESIGN.md section 3, C13"),
  "C14": dict(
    technique="property-based testing / fuzzing (proptest) + bounded-exhaustive enumeration, in worker processes with abort attribution",
-   text="Robustness fuzzing with a result-shape oracle: generated Unicode strings, token soups, character- and token-damaged sentences, every token string up to length 4/5, unbalanced brackets, truncated sentences and scoping-valid ill-typed programs go through tokenize / parse / type_check under catch_unwind in worker processes (a stack overflow or hang is attributed to the announced case); files of arbitrary bytes (invalid UTF-8, empty, damaged programs, nesting to 1000) go through `gram check`. No panic; Ok or a non-empty list of [Error] diagnostics; CLI exit 0 + result on stdout + empty stderr, or exit 1 + empty stdout + [Error]. Sampled except for the short token strings.",
-   note="An abort or hang inside type_check is counted inconclusive (divergent programs are allowed to diverge); nesting beyond ~3000 parentheses exhausts the CLI's 16 MiB stack and is outside the explored bound.",
+   text="Robustness fuzzing with a result-shape oracle: generated Unicode strings, token soups, character- and token-damaged sentences, every token string up to length 4/5, unbalanced brackets, truncated sentences and scoping-valid ill-typed programs go through tokenize / parse / type_check under catch_unwind in worker processes (a stack overflow or hang is attributed to the announced case); sentences with identifier names scrambled (names used where they are not in scope, bound twice) go through parse; files of arbitrary bytes (invalid UTF-8, empty, damaged programs, nesting to 1000) go through `gram check`. No panic; Ok or a non-empty list of [Error] diagnostics; CLI exit 0 + result on stdout + empty stderr, or exit 1 + empty stdout + [Error]. Sampled except for the short token strings.",
+   note="One recorded finding (a hole written under a binder of a type: the checker panics on a well-typed program) is matched by its call site and the explicit hole in the source; it is re-observed on three fixed inputs. An abort or hang inside type_check is counted inconclusive (divergent programs are allowed to diverge); nesting beyond ~3000 parentheses exhausts the CLI's 16 MiB stack and is outside the explored bound.",
    ref="DESIGN.md section 3, C14"),
  "C15": dict(
    technique="property-based testing (proptest) with planted faults against a reference excerpt renderer + re-parse of every subterm range",
-   text="Rejected programs are generated with one planted fault of known byte span (unbound / re-bound names in all binder forms, seven type-fault kinds with atomic, parenthesised and multi-line offending expressions, stray symbols) at generated positions (after up to 40 lines, after non-ASCII text on the line, on continuation lines, LF/CRLF, with/without final newline); the diagnostic's excerpt must show exactly the spanned lines, right numbers, and overline columns equal to the span's characters. White-box companion: every subterm range of generated programs under multi-line layouts lies in the file on char boundaries, nests in its parent, and re-parses in scope to the same subterm. Sampled.",
+   text="Rejected programs are generated with one planted fault of known byte span (unbound / re-bound names in all binder forms, seven type-fault kinds with atomic, parenthesised and multi-line offending expressions, stray symbols) at generated positions (after up to 40 lines, after non-ASCII text on the line, on continuation lines, LF/CRLF, with/without final newline); the diagnostic's excerpt must show exactly the spanned lines, right numbers, and overline columns equal to the span's characters. Invisible marks (byte order mark, zero-width space) are among the symbols, also as the first character of the file - where, if the mark is not diagnosed at all, the second planted fault must be pointed at in the file's own coordinates. White-box companion: every subterm range of generated programs under multi-line layouts lies in the file on char boundaries, nests in its parent, and re-parses in scope to the same subterm. Sampled.",
    note="Trusts the reference excerpt model (R-listing); spans may include or exclude parentheses that enclose only the offending expression.",
    ref="DESIGN.md section 3, C15"),
  "C16": dict(
    technique="property-based testing (proptest) round trip print -> tokenize -> parse",
-   text="Round-trip testing: generated source programs covering every (parent position x child form) pair are parsed, printed with Display, tokenized and parsed again in the same scope; the result must be structurally identical (indices, implicit flags, literals, definition order, holes, names except unused pi parameters). The evidence lists the pair matrix with counts. Sampled, not exhaustive; elaborated terms are covered through C05's and C19's programs.",
+   text="Round-trip testing: generated source programs covering every (parent position x child form) pair are parsed, printed with Display, tokenized and parsed again in the same scope; the result must be structurally identical (indices, implicit flags, literals, definition order, holes, names except unused pi parameters); a share of the sources has the tail of a group in parentheses. The evidence lists the pair matrix with counts. Sampled, not exhaustive; elaborated terms are covered through C05's and C19's programs.",
    note="Trusts the structural comparison in bridge.rs; the recorded finding (implicit pi with unused parameter) is matched by that exact shape only.",
    ref="DESIGN.md section 3, C16"),
  "C17": dict(
    technique="scaling measurement over generated input families on a deterministic work counter (hook)",
-   text="25 input families x 5 damage variants with n doubling from 6 to 1536 (quick) / 6144 (thorough), plus proptest-generated random compositions: the number of parsing-function calls (hook in cache_check!) must stay below 250 per token and the per-token rate must not rise on two successive doublings; CPU time growing >12x on two successive doublings and hangs (watchdog, attributed to the announced input) are violations too. Decides linearity of the memoised parser on the explored families; says nothing about families not listed.",
+   text="67 input families (among them three-operand application, product and sum chains nested in head, middle or last operand with the other operands parenthesised or not) x 5 damage variants with n doubling from 6 to 1536 (quick) / 6144 (thorough), plus proptest-generated random compositions: the number of parsing-function calls (hook in cache_check!) must stay below 250 per token, the calls of the passes over the parsed term (second hook) below 40 per token, and the per-token rate must not rise on two successive doublings; CPU time growing >12x on two successive doublings and hangs (watchdog, attributed to the announced input) are violations too. Decides linearity of the memoised parser on the explored families; says nothing about families not listed.",
    note="Needs the parser hook (feature verif). The constant was calibrated on the pinned tree (max observed about 60 calls per token).",
    ref="DESIGN.md section 3, C17"),
  "C18": dict(
@@ -95,7 +95,7 @@ CHECKS = {
    ref="DESIGN.md section 3, C18"),
  "C19": dict(
    technique="property-based testing (proptest) with metamorphic relations between a program and its rewrites",
-   text="Metamorphic testing without any reference semantics: accepted generated programs (a quarter annotation-erased) are rewritten 1-4 times (consistent renaming to ASCII / keyword-like / non-ASCII names, redundant parentheses, unused definitions wrapped around a node or inserted into a group, naming a node by a definition, annotated identity applied, `if true then e else e`, swapping independent adjacent function definitions); the rewritten program must be accepted, gram's own conversion must judge the two reported types equal, and the step loop must end the same way (same literal / kind; identical value for parentheses-only rewrites); a sample is compared through `gram check` / `gram run`. Guards against errors shared by the other checks' reference models and the code. Sampled.",
+   text="Metamorphic testing without any reference semantics: accepted generated programs (a quarter annotation-erased) are rewritten 1-4 times (consistent renaming to ASCII / keyword-like / non-ASCII names, redundant parentheses, unused definitions wrapped around a node or inserted into a group, naming a node by a definition, annotated identity applied, `if true then e else e`, swapping independent adjacent function definitions; parentheses also around the tail of a group); the rewritten program must be accepted, gram's own conversion must judge the two reported types equal, and the step loop must end the same way (same literal / kind; identical value for parentheses-only rewrites); a sample is compared through `gram check` / `gram run`. Guards against errors shared by the other checks' reference models and the code. Sampled.",
    note="Value-changing rewrites are not applied at the root of a definition (syntactic value-ness matters to the definition-order check); one recorded finding (un-annotated definition of a term with unsolved holes) is matched by that shape.",
    ref="DESIGN.md section 3, C19"),
 }
